@@ -112,7 +112,11 @@ func quickConfig() genConfig {
 
 func thoroughConfig() genConfig {
 	all := geneval.AllOptions()
-	return genConfig{Depth: 3, Level: 2, Options: all, PerBatch: 400, DeepOpts: all, FirstFull: 1 << 30}
+	// depth-3 containers, every leaf class up to depth 2, the first two batches
+	// under all 32 option sets and the rest under 8 (each option on and off,
+	// alone and combined)
+	deep := []geneval.Options{all[0], all[31], all[1], all[2], all[4], all[8], all[16], all[21]}
+	return genConfig{Depth: 3, Level: 2, Options: all, PerBatch: 300, DeepOpts: deep, FirstFull: 2}
 }
 
 func configFor(c *core.Ctx) genConfig {
@@ -197,6 +201,10 @@ func runGen(c *core.Ctx, p *load.Prog, cfg genConfig) *GenAnalysis {
 						res.recs = append(res.recs, local.readRecord(gf, r))
 					}
 				}
+				// the signature reader is done with the type information: release
+				// it (the syntax tree and text stay for the structural rules)
+				gf.Info = nil
+				gf.Pkg = nil
 				results[i] = res
 			}
 		}(w)
